@@ -184,6 +184,9 @@ def rule_r5(facts, col, rule_id="C02.R5"):
         ok = k.k == "bin" and k.op == "Rem" and any(x.k == "call" and (x.q or "").endswith("BufferState::capacity") for x in walk(k.b))
         if ok:
             col.ok(rule_id, key, body.where(bb), "key = (..) % capacity()")
+        elif any(x.k == "call" and (x.q or "").split("::")[-1] in ("next", "pos") for x in walk(k)) and \
+                not any(x.k == "bin" and x.op in ("Add", "Sub") for x in walk(k)):
+            col.silent(rule_id, key, body.where(bb), "key taken from an element of a pre-computed list: reduction not visible here")
         else:
             col.bad(rule_id, key, body.where(bb),
                     "the position a tag is stored under is not reduced modulo the ring capacity (%s): for a commit that straddles the "
@@ -277,6 +280,70 @@ def rule_r6(facts, col, rule_id="C02.R6"):
                 col.ok(rule_id, key, body.where(sorted(ops)[0]), "every path that removes tags is bounded by %s" % other)
 
 
+def rule_r7(facts, col, rule_id="C02.R7"):
+    """a commit is atomic: its tags enter the map under the SAME lock acquisition that advances the write position
+    (otherwise a reader can see - and consume - the committed samples without their tags, which then surface a lap later)"""
+    from .c03 import _lock_bbs
+    for body in facts.bodies:
+        if body.kind == "closure" or body_role(facts, body) != "commit":
+            continue
+        wlocks = set()
+        for bb, fld, st in c01.ring_writes(body):
+            if fld == "wpos":
+                wlocks |= _lock_bbs(body.place_expr(st["dst"]))
+        if not wlocks:
+            continue
+        for b2, bb, t, kind in tag_map_calls(facts):
+            if b2 is not body or kind != "insert":
+                continue
+            key = "%s:%s:same-lock" % (body.q, t["f"]["name"])
+            tl = _lock_bbs(body.operand_expr(t["args"][0]))
+            if not tl:
+                col.silent(rule_id, key, body.where(bb), "lock acquisition behind the tag map access not visible")
+            elif tl & wlocks:
+                col.ok(rule_id, key, body.where(bb), "tags inserted under the lock acquisition that advances wpos")
+            else:
+                col.bad(rule_id, key, body.where(bb),
+                        "the tags of a commit are inserted under a different lock acquisition than the one that advances wpos/used: "
+                        "between the two the reader can obtain (and consume) the new samples without their tags; the tags are then "
+                        "purged undelivered or resurface one lap later on unrelated samples", {})
+
+
+def rule_r8(facts, col, rule_id="C02.R8"):
+    """the wrapped end of the read window (`end % capacity`) is never compared with its start: the two coincide for an EMPTY
+    and for a completely FULL ring, so any decision taken on that comparison treats a full window like an empty one (all its
+    tags invisible) - the fill level `used` exists to tell them apart"""
+    n = 0
+    for body in facts.bodies:
+        if not (body.self_adt or "").startswith("circular_buffer::Buffer"):
+            continue
+        n += 1
+        found = False
+        for bb in sorted(body.reachable(0)):
+            for st in body.blocks[bb]["stmts"]:
+                if st["k"] != "assign" or st["rv"]["k"] != "bin" or st["rv"]["op"] not in ("Lt", "Le", "Gt", "Ge", "Eq", "Ne"):
+                    continue
+                a = peel(body.operand_expr(st["rv"]["a"]), through_try=False)
+                b = peel(body.operand_expr(st["rv"]["b"]), through_try=False)
+                for x, y in ((a, b), (b, a)):
+                    if not (x.k == "bin" and x.op == "Rem" and any(z.k == "call" and (z.q or "").endswith("BufferState::capacity") for z in walk(x.b))):
+                        continue
+                    xe = peel(x.a, through_try=False)
+                    is_end = (xe.k == "field" and xe.idx == 1 and any(z.k == "call" and (z.q or "").endswith("read_range") for z in walk(xe))) or \
+                        (any(z.k == "field" and z.owner == c01.STATE_ADT and z.name == "rpos" for z in walk(xe)) and
+                         any(z.k == "field" and z.owner == c01.STATE_ADT and z.name == "used" for z in walk(xe)))
+                    is_start = (y.k == "field" and y.idx == 0 and any(z.k == "call" and (z.q or "").endswith("read_range") for z in walk(y))) or \
+                        (y.k == "field" and y.owner == c01.STATE_ADT and y.name == "rpos")
+                    if is_end and is_start:
+                        found = True
+                        col.bad(rule_id, "%s:start-vs-wrapped-end" % body.q, "%s:%d" % (st["sp"]["f"], st["sp"]["l"]),
+                                "the start of the read window is compared with its end reduced modulo capacity(): both are equal for an "
+                                "empty ring and for a completely full one, so the full window is handled like an empty one (e.g. no tag "
+                                "is reported for it, and consume() then deletes them undelivered)", {})
+        if not found and body.name == "read_buf":
+            col.ok(rule_id, "%s:no-ambiguous-comparison" % body.q, body.where(), "no start-vs-(end % capacity) decision")
+
+
 UNSTABLE_SORTS = {"sort_unstable", "sort_unstable_by", "sort_unstable_by_key", "select_nth_unstable", "select_nth_unstable_by",
                   "select_nth_unstable_by_key", "reverse", "swap", "rotate_left", "rotate_right", "dedup", "dedup_by_key", "dedup_by"}
 STABLE_SORTS = {"sort", "sort_by", "sort_by_key", "sort_by_cached_key"}
@@ -288,11 +355,13 @@ def rule_r3(facts, col):
     for body in facts.bodies:
         if body.self_adt != c01.BUFFER_ADT or body.name != "read_buf":
             continue
+        nsorts = 0
         for bb, t in body.calls():
             f = t["f"]
             name = f.get("name")
             if name not in UNSTABLE_SORTS and name not in STABLE_SORTS:
                 continue
+            nsorts += 1
             if not t["args"]:
                 continue
             aty = (t.get("argtys") or [""])[0]
@@ -305,6 +374,8 @@ def rule_r3(facts, col):
                 col.bad("C02.R3", key, body.where(bb),
                         "the read window re-orders the tag list with %s, which does not preserve the relative order of "
                         "equal positions: several tags committed on one sample are no longer reported in commit order" % name, {})
+        if not nsorts:
+            col.ok("C02.R3", body.q + ":no-sort", body.where(), "the read window does not re-order the tag list at all")
 
 
 def run(ctx):
@@ -315,11 +386,15 @@ def run(ctx):
     rule_r3(facts, ctx)
     rule_r4(facts, ctx)
     rule_r5(facts, ctx)
+    rule_r8(facts, ctx)
+    ctx.floor("C02.R8", 1, "Buffer::read_buf")
+    rule_r7(facts, ctx)
+    ctx.floor("C02.R7", 1, "tag insertion in the commit body")
     rule_r6(facts, ctx)
     ctx.floor("C02.R6", 2, "both ends of the consumed interval bound the removal")
     ctx.floor("C02.R5", 1, "tag key in the commit body")
     ctx.floor("C02.R4", 1, "tag removal in consume")
-    ctx.floor("C02.R3", 1, "tags.sort_by_key in read_buf")
+    ctx.floor("C02.R3", 1, "read_buf: its sort (or none)")
     ctx.floor("C02.R1", 3, "1 inserting (entry) + 1 removing (remove) call site + read-only read_buf")
     ctx.floor("C02.R2", 1, "tag insertion in the commit body")
     ctx.explain("C02 (structural part): who-may-write on BufferState.tags (BTreeMap mutators only in the body that advances "
